@@ -629,6 +629,8 @@ func raceReports(work string) (total int, distinct map[string]int, sample string
 		if err != nil {
 			continue
 		}
+		base := filepath.Base(f)
+		tool := strings.HasPrefix(base, "race-bin") || strings.HasPrefix(base, "race-gen") || strings.HasPrefix(base, "race-ov")
 		for _, blk := range strings.Split(string(b), "==================") {
 			if !strings.Contains(blk, "WARNING: DATA RACE") {
 				continue
@@ -643,7 +645,7 @@ func raceReports(work string) (total int, distinct map[string]int, sample string
 			var fr []string
 			for _, ln := range strings.Split(blk, "\n") {
 				t := strings.TrimSpace(ln)
-				if strings.HasPrefix(t, modulePath) && !strings.Contains(t, "verif/") {
+				if (strings.HasPrefix(t, modulePath) && !strings.Contains(t, "verif/")) || (tool && strings.HasPrefix(t, "main.")) {
 					if i := strings.Index(t, "("); i > 0 {
 						t = t[:i]
 					}
